@@ -399,6 +399,9 @@ def hyp_cases(draw, tier):
 RULE_ROUND8 = " Root folders literally named '~', '~verif', '~root', 'r t', scanned through relative path arguments ('name', './name') after chdir, HOME pointing at an empty directory; one case in ten has a folder with 130-260 entries (every seventh a sub-directory); one file in six carries a modification time before 1987 with a sub-microsecond fraction."
 RULE = RULE + RULE_ROUND8
 
+RULE_ROUND9 = " The loaded tree and a copy of the scanned tree are saved and loaded again (second generation); a third of the cases without rescan hold a symbolic link to a deeper directory under a name that sorts elsewhere (an entry of its own name with the target's content)."
+RULE = RULE + RULE_ROUND9
+
 PARTS = [
     Part("directories", run, strategy=lambda tier: hyp_cases(tier), n={"quick": 500, "thorough": 20000}),
 ]
